@@ -27,7 +27,7 @@ CLAIMED = {
  'C14': dict(cat='exploration', ref='5/C14', tech=SIM + 'refinement check: probe search after (generated history + Clear Hash) vs. the same probe in a fresh engine process with the same option history, and vs. the same history under another schedule/clock',
       text='Seeded histories of 1..40 searches of all limit kinds (unrelated positions, earlier positions of the probe game, 3-man roots that build/abort on-demand tables, ucinewgame, option changes), then Clear Hash and a depth- or node-limited probe with one thread; the probe transcript (score lines without time/nps, node counts, bestmove) must equal that of a fresh engine.',
       note='Probe is restricted to full strength (Strength=1000, no MaxNPS/LimitStrength): reduced-strength play is seeded from the clock at ucinewgame by design. time/nps/hashfull fields and time-triggered currmove/stat lines are not compared.'),
- 'C07': dict(cat='exploration', ref='5/C07', tech=SIM + 'evaluation hook inside the real searches compares every evaluation (computed or cached) with an independent from-scratch evaluator; the same seeds are executed in the generic/SSSE3/AVX2/AVX-512 builds and their event-log hashes compared',
+ 'C07': dict(cat='exploration', ref='5/C07', tech=SIM + 'evaluation hook inside the real searches compares every evaluation (computed or cached) with an independent from-scratch evaluator; the same seeds are executed in the generic/SSSE3/AVX2/AVX-512 builds and their event-log hashes compared; plus seeded histories of the operations a search applies to one position/evaluator pair (C07H, no scheduler involved)',
       text='At every static evaluation the real (simulated, Threads 1..8) searches perform - reached through the search\'s own make/unmake/null-move/copy sequences - a thread-local oracle evaluator with its own tables evaluates a FEN-rebuilt copy from scratch; values must be equal, also on cache hits (stale cache entries), after contempt changes and side changes; 1/8 of the calls also check colour-swap (contempt negated) and left-right mirror symmetry. Because one seed is one execution, schedule and stdout hashes of the same seeds must be identical in all SIMD build variants.',
       note='Three synthetic networks (material-like, random, extreme weights), not the shipped weights. Positions are those real searches visit; uniformly generated positions are left to other techniques (DESIGN.md 5/C07). AVX-512 variant runs only if the CPU supports it (it does here).'),
  'C08': dict(cat='exploration', ref='5/C08', tech='deterministic simulation of 2..16 threads on one TranspositionTable with a scheduler switch point between the key word and the data word of every slot store and load; registry oracle of every record ever stored per key',
